@@ -1,2 +1,63 @@
-(* Properties_C02.v -- placeholder, theorems follow *)
-From TP Require Import Term.
+(* Properties_C02.v — C02: a cursor move puts the next glyph where it was asked,
+   on every kind of terminal. *)
+From TP Require Import Base Elem Term VT Oracle P_Sync P_Step P_Bytes P_Run P_Props Tie_Output.
+Local Open Scope N_scope.
+
+(* From any state reachable by any well-formed history (writes into the last
+   column, moves, save/restore, erases, size changes with an arbitrary adopted
+   cursor), on any of the three wrap behaviours: after a move to a position p
+   inside the declared size, a string of n <= width - x glyphs lands on
+   (x, y), (x+1, y), ..., and shows exactly the requested elements. *)
+Theorem C02_placement :
+  forall cfg beh, (b_unicode_all beh = true -> unicode_all cfg = true) ->
+  forall v0 h p es, vt0_ok v0 -> wf_hist beh init_tstate h ->
+    let st := fst (hrun cfg beh init_tstate v0 h) in
+    let v := snd (hrun cfg beh init_tstate v0 h) in
+    inside p (ts_size st) = true -> forallb wf_elem es = true ->
+    fst p + N.of_nat (length es) <= fst (ts_size st) ->
+    let v' := snd (hrun cfg beh st v [HOp (Move p); HOp (WStr es)]) in
+    exists tr, trace v' = rev tr ++ trace v /\
+               map fst tr = row_positions (fst p) (snd p) (length es) /\
+               map snd tr = map display_of es.
+Proof.
+  intros cfg beh Huni v0 h p es H0 Hwf st v Hin Hes Hlen v'.
+  destruct (sync_hrun cfg beh Huni h init_tstate v0 (sync_init beh v0 H0) Hwf) as [S _].
+  fold st v in S.
+  pose proof (sync_move cfg beh st v p S Hin) as Hm. cbv zeta in Hm.
+  destruct Hm as (S1 & Ht1 & _ & _ & _ & _ & Hc1 & _ & Hs1 & _).
+  rewrite <- (step_bytes cfg beh Huni st v (Move p) S Hin) in S1, Ht1.
+  pose proof (sync_step cfg beh Huni _ _ (WStr es) S1 Hes) as Hw. cbv zeta in Hw.
+  destruct Hw as (_ & (tr & Hpl & Htr) & _).
+  exists tr. unfold v', hrun. cbn [fold_left hstep snd fst].
+  split; [rewrite Htr, Ht1; reflexivity|].
+  rewrite Hc1, Hs1 in Hpl. cbn [op_elems op_elements] in Hpl.
+  split; [|exact (placed_cells _ _ _ _ Hpl)].
+  destruct p as [x y]. exact (placed_positions _ es x y tr Hpl Hlen).
+Qed.
+Print Assumptions C02_placement.
+
+(* the same for a single element written with operator<< or as a bare
+   write_element manipulator *)
+Theorem C02_single :
+  forall cfg beh, (b_unicode_all beh = true -> unicode_all cfg = true) ->
+  forall st v p e, Sync beh st v -> inside p (ts_size st) = true -> wf_elem e = true ->
+    let v' := snd (hrun cfg beh st v [HOp (Move p); HOp (WElem e)]) in
+    trace v' = (p, display_of e) :: trace v.
+Proof.
+  intros cfg beh Huni st v p e S Hin He v'.
+  pose proof (sync_move cfg beh st v p S Hin) as Hm. cbv zeta in Hm.
+  destruct Hm as (S1 & Ht1 & _ & _ & _ & _ & Hc1 & _ & Hs1 & _).
+  rewrite <- (step_bytes cfg beh Huni st v (Move p) S Hin) in S1, Ht1.
+  pose proof (sync_step cfg beh Huni _ _ (WElem e) S1 He) as Hw. cbv zeta in Hw.
+  destruct Hw as (_ & (tr & Hpl & Htr) & _).
+  unfold v', hrun. cbn [fold_left hstep snd fst]. rewrite Htr, Ht1.
+  cbn [op_elems op_elements] in Hpl. rewrite Hc1 in Hpl.
+  inversion Hpl as [|c e' es' q tr' Hq Hrest]; subst. inversion Hrest; subst.
+  rewrite (Hq p eq_refl). reflexivity.
+Qed.
+Print Assumptions C02_single.
+
+Example C02_nonvacuous :
+  inside (2, 1) (4, 2) = true /\ 2 + N.of_nat 2 <= 4 /\
+  row_positions 2 1 2 = [(2, 1); (3, 1)].
+Proof. repeat split; cbn; discriminate. Qed.
